@@ -44,6 +44,7 @@ def Cmp.negate : Cmp → Cmp
 /-- `negationNormalForm` (`helper node negate`) -/
 def nnf : Cond → Bool → Cond
   | .ip s c v, neg => .ip s (if neg then c.negate else c) v
+  | .net s c v n, neg => .net s (if neg then c.negate else c) v n
   | .num p c v, neg => .num p (if neg then c.negate else c) v
   | .not a, neg => nnf a (!neg)
   | .and a b, neg => if neg then .or (nnf a neg) (nnf b neg) else .and (nnf a neg) (nnf b neg)
@@ -55,6 +56,7 @@ def leafVersion (v : String) : Int := if v.length = 8 then IPVersionV4 else IPVe
 /-- `Node.IPVersion()`: the IP version the condition is limited to -/
 def limit : Cond → Int
   | .ip _ c v => if c ≠ .eq then IPVersionNone else leafVersion v
+  | .net _ c v _ => if c ≠ .eq then IPVersionNone else leafVersion v
   | .num _ _ _ => IPVersionNone            -- `ipVersion` of dport / proto leaves stays IPVersionNone
   | .not _ => IPVersionNone
   | .and a b => IPVersion_LimitAnd (limit a) (limit b)
@@ -74,6 +76,7 @@ def Flags.or (a b : Flags) : Flags := ⟨a.sip || b.sip, a.dip || b.dip, a.dport
 /-- keys of `Node.Attributes()` -/
 def condFlags : Cond → Flags
   | .ip src _ _ => ⟨src, !src, false, false⟩
+  | .net src _ _ _ => ⟨src, !src, false, false⟩    -- `conditionalAttributeNameToColumnIndex`: snet → sip, dnet → dip
   | .num port _ _ => ⟨false, false, port, !port⟩
   | .not a => condFlags a
   | .and a b => (condFlags a).or (condFlags b)
